@@ -29,13 +29,17 @@ def build(repo, log=lambda *a: None):
     tdir = os.path.join(VERIF, '.cache', 'replay-target')
     env = dict(os.environ, CARGO_NET_OFFLINE='true', CARGO_TARGET_DIR=tdir)
     env.pop('RUSTUP_TOOLCHAIN', None)
-    r = subprocess.run(['cargo', 'build', '--offline'], cwd=tmp, env=env, capture_output=True, text=True)
-    if r.returncode != 0:
-        shutil.rmtree(tmp, ignore_errors=True)
-        raise RuntimeError('real-code build failed: ' + r.stderr[-300:])
-    # copy the binary next to the scratch so that concurrent checks do not race on the shared target dir
-    binp = os.path.join(tmp, 'noulith-under-test')
-    shutil.copy2(os.path.join(tdir, 'debug', 'noulith'), binp)
+    # build + copy under a lock: concurrent checks of different trees share the target dir (dependency cache)
+    import fcntl
+    os.makedirs(tdir, exist_ok=True)
+    with open(os.path.join(tdir, '.verif-lock'), 'w') as lk:
+        fcntl.flock(lk, fcntl.LOCK_EX)
+        r = subprocess.run(['cargo', 'build', '--offline'], cwd=tmp, env=env, capture_output=True, text=True)
+        if r.returncode != 0:
+            shutil.rmtree(tmp, ignore_errors=True)
+            raise RuntimeError('real-code build failed: ' + r.stderr[-300:])
+        binp = os.path.join(tmp, 'noulith-under-test')
+        shutil.copy2(os.path.join(tdir, 'debug', 'noulith'), binp)
     return binp, (lambda: shutil.rmtree(tmp, ignore_errors=True))
 
 
